@@ -373,6 +373,15 @@ def gen_prescription(rng):
     xs = [0.0] * nf
     if rng.random() < 0.25:
         xs = [_sig(float(rng.uniform(-fmax, fmax)), fdig) if rng.random() < 0.6 else 0.0 for _ in range(nf)]
+    fstyle = rng.random()
+    if nf > 1 and fstyle < 0.08:            # fields along x only: every point has the same y
+        xs, ys = ys, [0.0] * nf
+    elif nf > 1 and fstyle < 0.16:          # a grid: several points share one y (and several one x)
+        g = sorted({_sig(v, fdig) for v in (0.0, 0.7 * fmax, -fmax)})[:max(2, min(3, nf // 2))]
+        pts = [(a, b) for b in g for a in g][:nf]
+        while len(pts) < nf:
+            pts.append(pts[int(rng.integers(len(pts)))])
+        xs, ys = [a for a, b in pts], [b for a, b in pts]
     fields = [[x, y] for x, y in zip(xs, ys)]
     if nf > 1 and rng.random() < 0.3:       # duplicates
         for _ in range(int(rng.integers(1, 3))):
